@@ -33,10 +33,13 @@ def handler(case):
     for e in case["adds"]:
         try:
             mc.add_move(Noop(), Crit(), name=f"m{e['name']}", interval=e["interval"], probability=e["weight"] / WS,
-                        minimum_count=e["min"])
+                        minimum_count=0 if case.get("late_min") else e["min"])
             refused.append(False)
         except ValueError:
             refused.append(True)
+    if case.get("late_min"):
+        for e in case["adds"]:
+            mc.moves[f"m{e['name']}"].minimum_count = e["min"]
     table = [[int(n[1:]), s.interval, s.probability * WS, s.minimum_count] for n, s in mc.moves.items()]
     log = []
     mc._rng = RecordingRNG(mc._rng, log)
